@@ -6,22 +6,10 @@
     Node numbering: the execution model numbers the step instances 0..n-1 (no
     source); the status graph has the source at 0 and instance [x] at [S x]. *)
 From Coq Require Import List Arith Bool NArith Lia.
-From MWF Require Import Base.Util Base.Str Status.Csv Status.CsvProofs Status.Rows Status.RowsProofs.
+From MWF Require Import Base.Util Base.Str Status.Csv Status.CsvProofs Status.Rows Status.RowsProofs
+  Status.ExecRows.
 From MWF Require Exec.ExecBase Exec.ExecRun Status.ExecJobs.
 Import ListNotations.
-
-(** [State.name] *)
-Definition state_name (v : ExecBase.State) : str :=
-  match v with
-  | ExecBase.INITIALIZED => s "INITIALIZED" | ExecBase.PENDING => s "PENDING"
-  | ExecBase.WAITING => s "WAITING" | ExecBase.RUNNING => s "RUNNING"
-  | ExecBase.FINISHING => s "FINISHING" | ExecBase.FINISHED => s "FINISHED"
-  | ExecBase.QUEUED => s "QUEUED" | ExecBase.FAILED => s "FAILED"
-  | ExecBase.INCOMPLETE => s "INCOMPLETE" | ExecBase.HWFAILURE => s "HWFAILURE"
-  | ExecBase.TIMEDOUT => s "TIMEDOUT" | ExecBase.UNKNOWN => s "UNKNOWN"
-  | ExecBase.CANCELLED => s "CANCELLED" | ExecBase.NOTFOUND => s "NOTFOUND"
-  | ExecBase.DRYRUN => s "DRYRUN"
-  end.
 
 (** what a poll changes, read off the execution model's state *)
 Definition exec_dyn (times : nat -> list str) (sk : ExecBase.st) (x : nat) : dyn_rec :=
@@ -93,3 +81,67 @@ Proof.
   intros statics times sk x Hx row r. subst row. rewrite rec_of_exec by exact Hx.
   repeat split.
 Qed.
+
+(* ------------------------------------------------------------------------- *)
+(** * the whole row against the model's state: [shown_ok]                      *)
+(* ------------------------------------------------------------------------- *)
+
+Lemma nth_rows_of : forall sk x,
+  nth x (ExecRun.rows_of sk) row_dflt
+  = (ExecBase.status (ExecBase.getrec sk x), ExecBase.jobs (ExecBase.getrec sk x),
+     ExecBase.restarts (ExecBase.getrec sk x)).
+Proof.
+  intros sk x. unfold ExecRun.rows_of, ExecBase.getrec.
+  change row_dflt with ((fun r => (ExecBase.status r, ExecBase.jobs r, ExecBase.restarts r)) ExecBase.dflt_rec).
+  rewrite map_nth. reflexivity.
+Qed.
+
+(** For EVERY state [sk] of the execution model (in particular the state after
+    any poll of any history): on a staged status graph over its instances, with
+    the instances' names in place and cells within H12, the table the status
+    command reads back shows for every instance exactly the state, latest job id
+    and restart count of the model's record. *)
+Theorem exec_rows_shown : forall (name : nat -> str) statics times sk (rg : graph),
+  let n := List.length (ExecBase.recs sk) in
+  let recs := exec_recs statics times sk in
+  (forall x, x < n -> sr_name (nth x statics (mkStatic [] [] [])) = name x) ->
+  instances rg 0 = seq 1 n ->
+  valid rg 0 recs = true -> H12_rows rg 0 recs = true ->
+  shown_ok name (ExecRun.rows_of sk) (snd (model_obs rg 0 recs)) = true.
+Proof.
+  intros name statics times sk rg n recs Hname Hinst Hv Hh.
+  destruct (valid_parts rg 0 recs Hv) as (Hwf & Hreach & _).
+  destruct (rows_once rg 0 Hwf Hreach) as [_ Hp].
+  unfold model_obs. simpl snd. rewrite (status_roundtrip rg 0 recs Hh). unfold shown_ok.
+  assert (Hcl : col_len (columns status_header (status_rows rg 0 recs))
+                = List.length (status_rows rg 0 recs)) by (simpl; apply map_length).
+  rewrite Hcl, table_rows_columns.
+  2:{ apply Forall_forall. intros r Hr. unfold status_rows in Hr. apply in_map_iff in Hr.
+      destruct Hr as (k & <- & _). reflexivity. }
+  assert (Hlen : List.length (ExecRun.rows_of sk) = n) by (unfold ExecRun.rows_of; apply map_length).
+  apply andb_true_iff. split.
+  - apply Nat.eqb_eq. unfold status_rows. rewrite map_length, (Permutation.Permutation_length Hp), Hinst, seq_length.
+    symmetry. exact Hlen.
+  - apply forallb_forall. intros x Hx. rewrite Hlen in Hx. apply in_seq in Hx.
+    assert (Hxn : x < n) by lia.
+    rewrite nth_rows_of. unfold shows. apply existsb_exists.
+    exists (row_of (rec_of recs (S x))). split.
+    + unfold status_rows. apply (in_map (fun k0 => row_of (rec_of recs k0))).
+      eapply Permutation.Permutation_in; [apply Permutation.Permutation_sym, Hp|].
+      rewrite Hinst. apply in_seq. lia.
+    + subst recs. rewrite rec_of_exec by exact Hxn. simpl nth.
+      rewrite (Hname x Hxn), !str_eqb_refl. reflexivity.
+Qed.
+
+(** ... in particular after EVERY poll of EVERY history: the table shows what the
+    reports delivered so far dictate through the dispatch logic (the row triple
+    of [ExecRun.run]'s observation for that poll is [rows_of] of this state) *)
+Theorem consistent_every_poll : forall c eg ps sk r (name : nat -> str) statics times (rg : graph),
+  In (sk, r) (ExecRun.run_states c eg (ExecBase.init eg) ps) ->
+  let n := List.length (ExecBase.recs sk) in
+  let recs := exec_recs statics times sk in
+  (forall x, x < n -> sr_name (nth x statics (mkStatic [] [] [])) = name x) ->
+  instances rg 0 = seq 1 n ->
+  valid rg 0 recs = true -> H12_rows rg 0 recs = true ->
+  shown_ok name (ExecRun.rows_of sk) (snd (model_obs rg 0 recs)) = true.
+Proof. intros c eg ps sk r name statics times rg _. apply exec_rows_shown. Qed.
